@@ -464,9 +464,28 @@ pub fn run(args: &[String]) -> i32 {
             }
 
             // ---------------- C09: culprit named ---------------------------------------
-            if c.muts.len() == 1 && c.verdict == "reject" && (c.kind == "missing" || c.kind == "invalid") {
+            if c.muts.len() == 1 && c.verdict == "reject" && (c.kind == "missing" || c.kind == "missingseq" || c.kind == "invalid") {
                 let k = c.muts[0]["k"].as_str().unwrap_or("");
-                if (k == "del" && c.kind == "missing") || (k == "bad" && c.kind == "invalid") {
+                let is_missing = c.kind == "missing" || c.kind == "missingseq";
+                // C09 quantifies over messages the library accepts before the mutation: undo the
+                // mutation and make sure the base message is accepted (if not, that is C03's matter)
+                let base_ok = {
+                    let p = c.muts[0]["p"].as_u64().unwrap_or(1) as usize;
+                    let mut base = c.toks.clone();
+                    if k == "del" && p >= 1 && p <= base.len() + 1 {
+                        base.insert(p - 1, AbsTok { tag: c.muts[0]["t"].as_str().unwrap_or("").to_string(), ok: true });
+                    } else if k == "bad" && p >= 1 && p <= base.len() {
+                        base[p - 1].ok = true;
+                    }
+                    match concretise(&contents, &base, policy) {
+                        Some(bf) => run_typed(&c.mt, &full_message(&c.mt, &block4_text(&bf)), false).map(|o| o.accepted).unwrap_or(false),
+                        None => false,
+                    }
+                };
+                if ((k == "del" && is_missing) || (k == "bad" && c.kind == "invalid")) && !base_ok {
+                    *props.get_mut("C09").unwrap().notes.entry("skipped:base-message-rejected".into()).or_insert(0) += 1;
+                }
+                if ((k == "del" && is_missing) || (k == "bad" && c.kind == "invalid")) && base_ok {
                     let t = props.get_mut("C09").unwrap();
                     t.evaluated += 1;
                     if out.accepted {
@@ -476,9 +495,9 @@ pub fn run(args: &[String]) -> i32 {
                         let (var, pay) = out.err.as_ref().map(err_variant).unwrap_or(("?".into(), Value::Null));
                         let etag = pay.get("field_tag").and_then(|x| x.as_str()).unwrap_or("");
                         let emt = pay.get("message_type").and_then(|x| x.as_str()).unwrap_or("");
-                        if c.kind == "missing" {
-                            let names_tag = (var == "MissingRequiredField" && (etag == c.gtag || (etag.starts_with(&c.gtag) && etag.len() <= c.gtag.len() + 1)))
-                                || (var != "MissingRequiredField" && out.err_text.contains(&c.gtag));
+                        if is_missing {
+                            let names_tag = c.kind == "missingseq" || ((var == "MissingRequiredField" && (etag == c.gtag || (etag.starts_with(&c.gtag) && etag.len() <= c.gtag.len() + 1)))
+                                || (var != "MissingRequiredField" && out.err_text.contains(&c.gtag)));
                             let names_type = emt == c.mt || out.err_text.contains(&c.mt);
                             if !(names_tag && names_type) {
                                 let sig = format!("C09|MT{}|del|{}|error-does-not-name:{}:{}", c.mt, c.gtag, var, etag);
